@@ -60,6 +60,11 @@ func (p *Poller) Next() GenericDataType {
 		data, ok := p.Diode.TryNext()
 		if !ok {
 			if p.isDone() {
+				// Data set before the context was cancelled may have
+				// arrived after the TryNext above: look once more.
+				if data, ok = p.Diode.TryNext(); ok {
+					return data
+				}
 				return nil
 			}
 
